@@ -13,7 +13,11 @@ genfail x_pre=<H32>     written by the generator when it could not extend a chai
 reload x_pre=<H32>      from here on a second pair (state reloaded from SSZ bytes, fresh context) runs along
 endreload
 ```
-answers: `ok root=<root> fresh=same reload=<none|same> <abbreviated ctxOf dump>`, `ok` (reload/endreload),
+answers: `<model> | <spec>`, both of the form `ok root=<root> fresh=same reload=<none|same> hyps=<ok|failed:…> <abbreviated dump>`:
+the model column dumps the live context of the code-shaped model (`rotate` at epoch boundaries, `afterDeposit` for
+appended validators, `afterUpgrade` at the altair upgrade — applied line after line, never recomputed), the spec column
+dumps `ctxOf` of the line's state; `hyps` is the executable check of the step theorems' hypotheses (`epochWritesB`, …)
+between the previous and this state. `ok` (reload/endreload),
 `bad-op` (unparseable, or `pre` is not the root of the state the sequence is at — so a deleted line silences
 the rest of its chain on both sides).
 -/
@@ -24,11 +28,42 @@ structure DState where
   cfg : Option Config := none
   root : Option String := none
   shadow : Bool := false
+  /-- the state after the previous line -/
+  prev : Option State := none
+  /-- the code-shaped model's live context (`rotate` / `afterDeposit` / `afterUpgrade` applied line by line) -/
+  live : Option Ctx := none
 
-def answer (cfg : Config) (st : State) (root : String) (shadow : Bool) : String :=
-  match ctxOf cfg st with
-  | .ok c => s!"ok root={root} fresh=same reload={if shadow then "same" else "none"} " ++ dumpAbbrev c
-  | .error _ => s!"ok root={root} fresh=err-fresh reload={if shadow then "same" else "none"} ctx-err"
+def render (root : String) (shadow : Bool) (hyps : String) (c : SM Ctx) : String :=
+  let head := s!"ok root={root} fresh=same reload={if shadow then "same" else "none"} hyps={hyps} "
+  match c with
+  | .ok c => head ++ dumpAbbrev c
+  | .error _ => head ++ "ctx-err"
+
+/-- the state `RotateEpochs` sees when the same call of `ProcessSlots` also upgrades the fork: the upgrade keeps
+registry, mixes and slot, and (altair) creates the sync committees afterwards -/
+def preUpgrade (prev st' : State) : State :=
+  if st'.fork = prev.fork then st'
+  else if prev.fork < Fork.altair then
+    { st' with fork := prev.fork, current_sync_committee := none, next_sync_committee := none }
+  else { st' with fork := prev.fork }
+
+/-- advance the live model context over one observed step `prev → st'`; also evaluates the step theorems' hypotheses -/
+def advance (cfg : Config) (prev st' : State) (live : Ctx) : String × SM Ctx :=
+  let N := get_current_epoch cfg prev
+  let N' := get_current_epoch cfg st'
+  let cfgOk := decide (1 ≤ cfg.MIN_SEED_LOOKAHEAD) && decide (1 ≤ cfg.MAX_SEED_LOOKAHEAD) &&
+    decide (cfg.MIN_SEED_LOOKAHEAD + 3 < cfg.EPOCHS_PER_HISTORICAL_VECTOR)
+  if !cfgOk then ("config-outside-theorems", ctxOf cfg st')
+  else if N' = N then
+    let hyps := if epochWritesB cfg N prev st' then (if inEpochHypsB prev st' then "ok" else "failed:in-epoch") else "failed:epoch-writes"
+    (hyps, pure ((st'.validators.drop prev.validators.length).foldl afterDeposit live))
+  else if N' = N + 1 then
+    let mid := preUpgrade prev st'
+    let hyps := if epochWritesB cfg N prev mid then (if boundaryHypsB cfg N prev mid then "ok" else "failed:boundary") else "failed:epoch-writes"
+    (hyps, do
+      let c1 ← rotate cfg live mid
+      if prev.fork < Fork.altair ∧ st'.fork ≥ Fork.altair then afterUpgrade c1 { st' with fork := Fork.altair } else pure c1)
+  else ("failed:more-than-one-epoch", ctxOf cfg st')
 
 def step (d : DState) (line : String) : DState × String :=
   let bad := (d, "bad-op")
@@ -37,7 +72,10 @@ def step (d : DState) (line : String) : DState × String :=
     let (kv, extra) := parseKV rest
     if !extra.isEmpty then bad else
     match parseConfig kv, parseState kv, kv.get? "x_root" with
-    | .ok cfg, .ok st, some root => ({ cfg := some cfg, root := some root, shadow := false }, answer cfg st root false)
+    | .ok cfg, .ok st, some root =>
+      let c := ctxOf cfg st
+      ({ cfg := some cfg, root := some root, shadow := false, prev := some st, live := c.toOption },
+        render root false "ok" c ++ " | " ++ render root false "ok" c)
     | _, _, _ => bad
   | op :: rest =>
     if op = "slots" || op = "block" then
@@ -46,17 +84,22 @@ def step (d : DState) (line : String) : DState × String :=
       match d.cfg, parseState kv, kv.get? "x_pre", kv.get? "x_root" with
       | some cfg, .ok st, some pre, some root =>
         if d.root ≠ some pre then bad else
-        ({ d with root := some root }, answer cfg st root d.shadow)
+        let spec := ctxOf cfg st
+        let (hyps, model) := match d.prev, d.live with
+          | some prev, some live => advance cfg prev st live
+          | _, _ => ("no-live-context", spec)
+        ({ d with root := some root, prev := some st, live := model.toOption },
+          render root d.shadow hyps model ++ " | " ++ render root d.shadow hyps spec)
       | _, _, _, _ => bad
-    else if op = "reload" then
-      let (kv, extra) := parseKV rest
-      if !extra.isEmpty || d.cfg.isNone || d.root.isNone || kv.get? "x_pre" ≠ d.root then bad else
-      ({ d with shadow := true }, "ok")
     else if op = "genesisfail" then (d, "ok")   -- as `genfail`, for a chain whose genesis could not be built
     else if op = "genfail" then
       -- the generator could not extend a chain: on correct code this line is never generated
       let (kv, extra) := parseKV rest
       if !extra.isEmpty || d.cfg.isNone || kv.get? "x_pre" ≠ d.root then bad else (d, "ok")
+    else if op = "reload" then
+      let (kv, extra) := parseKV rest
+      if !extra.isEmpty || d.cfg.isNone || d.root.isNone || kv.get? "x_pre" ≠ d.root then bad else
+      ({ d with shadow := true }, "ok")
     else if op = "endreload" then
       if rest.isEmpty && d.cfg.isSome then ({ d with shadow := false }, "ok") else bad
     else bad
